@@ -844,7 +844,7 @@ theorem gen_percentRank_step (len : Nat) (g : List Nat) (gs : List (List Nat)) (
 theorem gen_ntile_rejects (n : Int) (p : List Nat) : An.ntileRejects n = true ↔ ntile n p = none := by
   simp [An.ntileRejects, ntile]
 
-theorem gen_ntileParams (total n : Nat) (hn : 1 ≤ n) :
+theorem gen_ntileParams (total n : Nat) :
     An.ntileParams n total = (.fall, ((ntileParams total n).1 : Int), ((ntileParams total n).2 : Int)) := by
   unfold An.ntileParams ntileParams
   have e1 : Int.tdiv (total : Int) (n : Int) = ((total / n : Nat) : Int) := by
@@ -889,6 +889,272 @@ theorem gen_ntile_step (perTile idx : Nat) (rest : List Nat) (tile count mod : N
       have e1 : ((count : Int) + 1).toNat = count + 1 := by omega
       have hB' : ¬ perTile = count := by omega
       simp [hB', this, e1]
+
+/-! setNthValue (FIRST_VALUE / LAST_VALUE / NTH_VALUE) -/
+
+/-- the loop over the frame: starts at Low with step +1 (at High with step −1 when counting from the last
+    row), runs while Low ≤ i ≤ High; afterwards the value is reset to NULL iff fewer than n cells counted -/
+theorem gen_nth_header (lo hi i st count n : Int) :
+    An.nthInit lo hi false = (.fall, 0, lo, 1) ∧ An.nthInit lo hi true = (.fall, 0, hi, -1) ∧
+    An.nthCond lo hi i = decide (lo ≤ i ∧ i ≤ hi) ∧ An.nthPost i st = (.fall, i + st) ∧
+    An.nthMissing count n = decide (count < n) := by
+  refine ⟨rfl, rfl, ?_, rfl, rfl⟩
+  unfold An.nthCond
+  by_cases h1 : lo ≤ i <;> by_cases h2 : i ≤ hi <;> simp [h1, h2]
+
+/-- the positions the loop visits, obtained by running the generated header -/
+def nthVisit (lo hi : Int) : Nat → Int → Int → List Int
+  | 0, _, _ => []
+  | f + 1, i, st => if An.nthCond lo hi i then i :: nthVisit lo hi f (An.nthPost i st).2 st else []
+
+/-- FIRST_VALUE / NTH_VALUE visit Low, Low + 1, …, High in this order -/
+theorem gen_nth_visits_forward (lo hi : Int) : ∀ (f : Nat) (i : Int), i + f = hi + 1 → lo ≤ i →
+    nthVisit lo hi f i 1 = (List.range f).map (fun (j : Nat) => i + (j : Int))
+  | 0, _, _, _ => rfl
+  | f + 1, i, h1, h2 => by
+    have hc : An.nthCond lo hi i = true := by simp [An.nthCond]; omega
+    simp only [nthVisit, hc, if_true, An.nthPost]
+    rw [gen_nth_visits_forward lo hi f (i + 1) (by omega) (by omega), List.range_succ_eq_map, List.map_cons, List.map_map]
+    congr 1
+    · simp
+    · apply List.map_congr_left
+      intro j _
+      simp only [Function.comp_apply, Nat.succ_eq_add_one]; omega
+
+/-- LAST_VALUE visits High, High − 1, …, Low in this order -/
+theorem gen_nth_visits_backward (lo hi : Int) : ∀ (f : Nat) (i : Int), i - f = lo - 1 → i ≤ hi →
+    nthVisit lo hi f i (-1) = (List.range f).map (fun (j : Nat) => i - (j : Int))
+  | 0, _, _, _ => rfl
+  | f + 1, i, h1, h2 => by
+    have hc : An.nthCond lo hi i = true := by simp [An.nthCond]; omega
+    simp only [nthVisit, hc, if_true, An.nthPost]
+    rw [gen_nth_visits_backward lo hi f (i + -1) (by omega) (by omega), List.range_succ_eq_map, List.map_cons, List.map_map]
+    congr 1
+    · simp
+    · apply List.map_congr_left
+      intro j _
+      simp only [Function.comp_apply, Nat.succ_eq_add_one]; omega
+
+/-- one round of the loop over the frame as it stands in the source is one unfolding of the model's
+    `scanNthFixed` (the record at a position inside the partition: skipped if NULL under IGNORE NULLS,
+    taken if it is the n-th counted one, otherwise counted); a position outside the partition is skipped -/
+theorem gen_nth_step (cells : Nat → Val) (ign : Bool) (n r : Nat) (rest : List Nat) (count : Nat) (i len : Int)
+    (h0 : 0 ≤ i) (hl : i < len) :
+    scanNthFixed cells ign n (r :: rest) count =
+      match An.nthStep i len count n ign (isNullV (cells r)) with
+      | (.brk, _) => cells r
+      | (_, c) => scanNthFixed cells ign n rest c.toNat := by
+  have r1 : ¬ i < 0 := by omega
+  have r2 : ¬ len ≤ i := by omega
+  unfold An.nthStep
+  simp only [r1, r2, decide_false, Bool.or_self, Bool.false_eq_true, if_false, scanNthFixed]
+  by_cases hk : (ign && isNullV (cells r)) = true
+  · simp [hk]
+  · simp only [hk, Bool.false_eq_true, if_false]
+    by_cases hn : count + 1 = n
+    · have : ((count : Int) + 1 = (n : Int)) := by omega
+      simp [hn, this]
+    · have : ¬ ((count : Int) + 1 = (n : Int)) := by omega
+      have e : ((count : Int) + 1).toNat = count + 1 := by omega
+      simp [hn, this, e]
+
+theorem gen_nth_step_outside (i len count n : Int) (ign b : Bool) (h : i < 0 ∨ len ≤ i) :
+    An.nthStep i len count n ign b = (.cont, count) := by
+  unfold An.nthStep
+  rcases h with h | h
+  · simp [h]
+  · by_cases h1 : i < 0 <;> simp [h, h1]
+
+/-- when the loop ends by `break` the n-th counted cell has been reached and the value is kept -/
+theorem gen_nth_break_keeps (i len count n : Int) (ign b : Bool)
+    (h : (An.nthStep i len count n ign b).1 = .brk) :
+    An.nthMissing (An.nthStep i len count n ign b).2 n = false := by
+  by_cases h1 : i < 0 <;> by_cases h2 : len ≤ i <;> by_cases h3 : (ign && b) = true <;>
+    by_cases h4 : count + 1 = n <;> simp [An.nthStep, An.nthMissing, h1, h2, h3, h4] at h ⊢ <;> omega
+
+/-! setLag (LAG / LEAD) -/
+
+/-- the scan of setLag, obtained by running the generated header and loop round over `values` (oldest
+    first, the current row last) -/
+def lagScan (ign : Bool) (values : List Val) : Nat → Int → Option Val
+  | 0, _ => none
+  | f + 1, i =>
+    if An.lagScanCond i then
+      match values[i.toNat]? with
+      | none => none
+      | some v =>
+        match An.lagScanStep ign (isNullV v) with
+        | .brk => some v
+        | _ => lagScan ign values f (An.lagScanPost i).2
+    else none
+
+def lagByGen (ign : Bool) (dflt : Val) (offset : Int) (values : List Val) : Val :=
+  if An.lagInRange (An.lagIdx values.length offset).2 values.length then
+    (lagScan ign values values.length (An.lagScanInit (An.lagIdx values.length offset).2).2).getD dflt
+  else dflt
+
+theorem lagScan_before_start (ign : Bool) (values : List Val) (f : Nat) : lagScan ign values f (-1) = none := by
+  cases f <;> simp [lagScan, An.lagScanCond]
+
+theorem lagScan_step (ign : Bool) (values : List Val) (i f : Nat) (hi : i < values.length) :
+    lagScan ign values (f + 1) (i : Int)
+      = if keepV ign values[i] then some values[i] else lagScan ign values f ((i : Int) - 1) := by
+  have hv : values[i]? = some values[i] := List.getElem?_eq_getElem hi
+  have hc : An.lagScanCond (i : Int) = true := by simp [An.lagScanCond]
+  have hn : ((i : Nat) : Int).toNat = i := by omega
+  simp only [lagScan, hc, if_true, hn, hv, An.lagScanStep, An.lagScanPost]
+  cases h1 : ign <;> cases h2 : isNullV values[i] <;> simp [keepV, h1, h2]
+
+theorem lagScan_spec (ign : Bool) (values : List Val) : ∀ (i f : Nat), i < values.length → i + 1 ≤ f →
+    lagScan ign values f (i : Int) = ((values.take (i + 1)).reverse).find? (keepV ign) := by
+  intro i
+  induction i with
+  | zero =>
+    intro f hi hf
+    obtain ⟨f', rfl⟩ : ∃ f', f = f' + 1 := ⟨f - 1, by omega⟩
+    have ht : values.take (0 + 1) = [values[0]] := by
+      cases values with
+      | nil => simp at hi
+      | cons a l => simp
+    rw [lagScan_step ign values 0 f' hi, ht]
+    have : ((0 : Nat) : Int) - 1 = -1 := by omega
+    rw [this, lagScan_before_start]
+    simp [List.find?_cons]
+    cases keepV ign values[0] <;> simp
+  | succ j ih =>
+    intro f hi hf
+    obtain ⟨f', rfl⟩ : ∃ f', f = f' + 1 := ⟨f - 1, by omega⟩
+    have hv : values[j + 1]? = some values[j + 1] := List.getElem?_eq_getElem hi
+    have ht : values.take (j + 1 + 1) = values.take (j + 1) ++ [values[j + 1]] := by
+      rw [List.take_succ, hv]; rfl
+    rw [lagScan_step ign values (j + 1) f' hi, ht, List.reverse_append]
+    have e : ((j + 1 : Nat) : Int) - 1 = (j : Int) := by omega
+    rw [e, ih f' (by omega) (by omega)]
+    simp only [List.reverse_cons, List.reverse_nil, List.nil_append, List.singleton_append, List.find?_cons]
+    cases keepV ign values[j + 1] <;> simp
+
+/-- LAG as the source computes it — `lagIdx := len(values) − 1 − offset`, the scan only if
+    `0 ≤ lagIdx < len(values)`, from lagIdx downwards past NULL cells under IGNORE NULLS, else the default —
+    is the model's `lagPick` (which `lag_spec` / `lead_spec` rest on), for every offset, negative ones included -/
+theorem gen_lag_eq_model (ign : Bool) (dflt : Val) (offset : Int) (values : List Val) :
+    lagByGen ign dflt offset values = lagPick ign dflt offset values.reverse := by
+  unfold lagByGen lagPick An.lagIdx An.lagInRange An.lagScanInit
+  simp only
+  by_cases hneg : offset < 0
+  · have : ¬ ((values.length : Int) - 1 - offset < (values.length : Int)) := by omega
+    simp [hneg, this]
+  · simp only [hneg, if_false]
+    by_cases hin : offset < (values.length : Int)
+    · have h1 : (0 : Int) ≤ (values.length : Int) - 1 - offset := by omega
+      have h2 : (values.length : Int) - 1 - offset < (values.length : Int) := by omega
+      simp only [h1, h2, decide_true, Bool.and_self, if_true]
+      obtain ⟨i, hi⟩ : ∃ i : Nat, (i : Int) = (values.length : Int) - 1 - offset := ⟨((values.length : Int) - 1 - offset).toNat, by omega⟩
+      rw [← hi, lagScan_spec ign values i values.length (by omega) (by omega), List.reverse_take]
+      have : values.length - (i + 1) = offset.toNat := by omega
+      rw [this]
+      cases (List.drop offset.toNat values.reverse).find? (keepV ign) <;> rfl
+    · have h2 : ¬ ((0 : Int) ≤ (values.length : Int) - 1 - offset) := by omega
+      have hd : List.drop offset.toNat values.reverse = [] := List.drop_eq_nil_of_le (by simp; omega)
+      simp [h2, hd]
+
+/-- the default offset of LAG / LEAD without a second argument is 1 -/
+theorem gen_lag_default_offset : An.lagOffsetDefault = (.fall, 1) := rfl
+
+/-! the parts that are not arithmetic, and the registration tables -/
+
+/-- everything in the translated functions that is NOT integer code — the Boolean conditions that became
+    parameters (with the names used above), the statements kept as text with the conditions they are nested
+    under, the loop headers and what follows each loop — is the reviewed text; any edit of these parts of
+    the source makes this theorem fail -/
+theorem gen_opaque_parts_reviewed :
+    An.singleFrameSetText = "{indices := make([]int, len(partition)) for i, idx := range partition {indices[i] = idx} return []WindowFrame{{Low: 0, High: len(partition) - 1, Records: indices}}}" ∧
+    An.windowFrameSetEffects = ["length := len(partition)", "frameSet := make([]WindowFrame, 0, length)", "var windowClause parser.WindowingClause"] ∧
+    An.windowCapacityConds = [] ∧
+    An.windowCapacityEffects = ["values := make([]value.Primary, 0, capacity)", "anScope := scope.CreateScopeForAnalytics()"] ∧
+    An.windowValuesLoop = "for i := frame.Low; i <= frame.High; i++" ∧
+    An.windowValuesStepConds = [] ∧
+    An.windowValuesStepEffects = ["!(decide (i < 0) || decide (length ≤ i)) ⊢ recordIdx := partition[i]", "!(decide (i < 0) || decide (length ≤ i)) ⊢ if v, ok := valueCache[recordIdx]; ok {values = append(values, v)} else {anScope.Records[0].recordIndex = recordIdx p, e := Evaluate(ctx, anScope, expr.Args[0]) if e != nil {return nil, e} valueCache[recordIdx] = p values = append(values, p)}"] ∧
+    An.rowNumberStepInitConds = [] ∧
+    An.rowNumberStepInitEffects = ["list := make(map[int]value.Primary, len(partition))"] ∧
+    An.rowNumberStepLoop = "for _, idx := range partition" ∧
+    An.rowNumberStepConds = [] ∧
+    An.rowNumberStepEffects = [] ∧
+    An.rowNumberStepAfter = ["return list, nil"] ∧
+    An.rankStepInitConds = [] ∧
+    An.rankStepInitEffects = ["list := make(map[int]value.Primary, len(partition))", "var currentRank SortValues"] ∧
+    An.rankStepLoop = "for _, idx := range partition" ∧
+    An.rankStepConds = ["newGroup: scope.Records[0].view.sortValuesInEachRecord == nil || !scope.Records[0].view.sortValuesInEachRecord[idx].EquivalentTo(currentRank)", "hasOrder: scope.Records[0].view.sortValuesInEachRecord != nil"] ∧
+    An.rankStepEffects = ["newGroup & hasOrder ⊢ currentRank = scope.Records[0].view.sortValuesInEachRecord[idx]"] ∧
+    An.rankStepAfter = ["return list, nil"] ∧
+    An.denseRankStepInitConds = [] ∧
+    An.denseRankStepInitEffects = ["list := make(map[int]value.Primary, len(partition))", "var currentRank SortValues"] ∧
+    An.denseRankStepLoop = "for _, idx := range partition" ∧
+    An.denseRankStepConds = ["newGroup: scope.Records[0].view.sortValuesInEachRecord == nil || !scope.Records[0].view.sortValuesInEachRecord[idx].EquivalentTo(currentRank)", "hasOrder: scope.Records[0].view.sortValuesInEachRecord != nil"] ∧
+    An.denseRankStepEffects = ["newGroup & hasOrder ⊢ currentRank = scope.Records[0].view.sortValuesInEachRecord[idx]"] ∧
+    An.denseRankStepAfter = ["return list, nil"] ∧
+    An.groupStepInitConds = [] ∧
+    An.groupStepInitEffects = ["groups := make([][]int, 0)", "var currentRank SortValues"] ∧
+    An.groupStepLoop = "for _, idx := range partition" ∧
+    An.groupStepConds = ["newGroup: view.sortValuesInEachRecord == nil || !view.sortValuesInEachRecord[idx].EquivalentTo(currentRank)", "hasOrder: view.sortValuesInEachRecord != nil"] ∧
+    An.groupStepEffects = ["newGroup ⊢ groups = append(groups, []int{idx})", "newGroup & hasOrder ⊢ currentRank = view.sortValuesInEachRecord[idx]", "!newGroup ⊢ groups[len(groups)-1] = append(groups[len(groups)-1], idx)"] ∧
+    An.groupStepAfter = ["return groups"] ∧
+    An.cumeDistStepInitConds = [] ∧
+    An.cumeDistStepInitEffects = ["list := make(map[int]value.Primary, len(partition))", "groups := perseCumulativeGroups(partition, scope.Records[0].view)"] ∧
+    An.cumeDistStepLoop = "for _, group := range groups" ∧
+    An.cumeDistStepConds = [] ∧
+    An.cumeDistStepEffects = ["[stored for every record] for _, idx := range group"] ∧
+    An.cumeDistStepAfter = ["return list, nil"] ∧
+    An.percentRankStepInitConds = [] ∧
+    An.percentRankStepInitEffects = ["list := make(map[int]value.Primary, len(partition))", "groups := perseCumulativeGroups(partition, scope.Records[0].view)"] ∧
+    An.percentRankStepLoop = "for _, group := range groups" ∧
+    An.percentRankStepConds = [] ∧
+    An.percentRankStepEffects = ["decide (0 < denom) ⊢ [stored for every record] for _, idx := range group", "!decide (0 < denom) ⊢ [stored for every record] for _, idx := range group"] ∧
+    An.percentRankStepAfter = ["return list, nil"] ∧
+    An.ntileParamsConds = [] ∧
+    An.ntileParamsEffects = ["tileNumber := 0", "p, err := Evaluate(ctx, scope, expr.Args[0])", "if err != nil {return nil, NewFunctionInvalidArgumentError(expr, expr.Name, \"the first argument must be an integer\")}", "i := value.ToInteger(p)", "if value.IsNull(i) {return nil, NewFunctionInvalidArgumentError(expr, expr.Name, \"the first argument must be an integer\")}", "tileNumber = int(i.(*value.Integer).Raw())", "value.Discard(i)", "guard ⊢ {return nil, NewFunctionInvalidArgumentError(expr, expr.Name, \"the first argument must be greater than 0\")}", "list := make(map[int]value.Primary, len(partition))", "var tile int64 = 1", "var count = 0"] ∧
+    An.ntileInitConds = [] ∧
+    An.ntileInitEffects = [] ∧
+    An.ntileStepLoop = "for _, idx := range partition" ∧
+    An.ntileStepConds = [] ∧
+    An.ntileStepEffects = [] ∧
+    An.nthInitConds = ["fromLast: fromLast"] ∧
+    An.nthInitEffects = ["var val value.Primary = value.NewNull()"] ∧
+    An.nthPostConds = [] ∧
+    An.nthPostEffects = [] ∧
+    An.nthStepConds = ["ign: expr.IgnoreNulls()", "isNull: value.IsNull(val)"] ∧
+    An.nthStepEffects = ["!(decide (i < 0) || decide (length ≤ i)) ⊢ recordIdx := partition[i]", "!(decide (i < 0) || decide (length ≤ i)) ⊢ if v, ok := valueCache[recordIdx]; ok {val = v} else {anScope.Records[0].recordIndex = recordIdx p, err := Evaluate(ctx, anScope, expr.Args[0]) if err != nil {return nil, err} valueCache[recordIdx] = p val = p}"] ∧
+    An.nthAfter = ["for _, idx := range frame.Records {list[idx] = val}"] ∧
+    An.lagOffsetDefaultConds = [] ∧
+    An.lagOffsetDefaultEffects = [] ∧
+    An.lagPrologue = ["if 1 < len(expr.Args) {p, err := Evaluate(ctx, scope, expr.Args[1]) if err != nil {return nil, NewFunctionInvalidArgumentError(expr, expr.Name, \"the second argument must be an integer\")} i := value.ToInteger(p) if value.IsNull(i) {return nil, NewFunctionInvalidArgumentError(expr, expr.Name, \"the second argument must be an integer\")} offset = int(i.(*value.Integer).Raw()) value.Discard(i)}", "var defaultValue value.Primary = value.NewNull()", "if 2 < len(expr.Args) {p, err := Evaluate(ctx, scope, expr.Args[2]) if err != nil {return nil, err} defaultValue = p}", "anScope := scope.CreateScopeForAnalytics()", "list := make(map[int]value.Primary, len(partition))", "values := make([]value.Primary, 0)"] ∧
+    An.lagIdxConds = [] ∧
+    An.lagIdxEffects = ["anScope.Records[0].recordIndex = idx", "p, err := Evaluate(ctx, anScope, expr.Args[0])", "if err != nil {return nil, err}", "values = append(values, p)", "val := defaultValue", "list[idx] = val"] ∧
+    An.lagScanInitConds = [] ∧
+    An.lagScanInitEffects = [] ∧
+    An.lagScanPostConds = [] ∧
+    An.lagScanPostEffects = [] ∧
+    An.lagScanStepConds = ["ign: expr.IgnoreNulls()", "isNull: value.IsNull(values[i])"] ∧
+    An.lagScanStepEffects = ["!(ign && isNull) ⊢ val = values[i]"] :=
+  ⟨rfl, rfl, rfl, rfl, rfl, rfl, rfl, rfl, rfl, rfl, rfl, rfl, rfl, rfl, rfl, rfl, rfl, rfl, rfl, rfl, rfl, rfl, rfl, rfl, rfl, rfl, rfl, rfl, rfl, rfl, rfl, rfl, rfl, rfl, rfl, rfl, rfl, rfl, rfl, rfl, rfl, rfl, rfl, rfl, rfl, rfl, rfl, rfl, rfl, rfl, rfl, rfl, rfl, rfl, rfl, rfl, rfl, rfl, rfl, rfl, rfl, rfl, rfl, rfl, rfl, rfl, rfl, rfl⟩
+
+/-- the AnalyticFunctions map, CheckArgsLen of every function, and which shared helper each Execute calls with
+    which constants (FIRST_VALUE = setNthValue(1, false), LAST_VALUE = setNthValue(1, true), NTH_VALUE =
+    setNthValue(n, false), LEAD = partition.Reverse() + setLag) are the reviewed tables of the model -/
+theorem gen_registry_reviewed :
+    An.registry = registry ∧ An.argLens = argLens ∧ An.delegations = delegations := ⟨rfl, rfl, rfl⟩
+
+/-- the keyword classes of the scanner and the productions of parser.y that decide which function may carry
+    IGNORE NULLS / a windowing clause, and which frame bounds exist, are the reviewed ones -/
+theorem gen_grammar_reviewed :
+    An.keywordClasses = keywordClasses ∧ An.keywordTokens = keywordTokens ∧ An.grammarForms = grammarForms :=
+  ⟨rfl, rfl, rfl⟩
+
+/-- … from which: only FIRST/LAST/NTH_VALUE and LAG/LEAD take IGNORE NULLS; a windowing clause is allowed for
+    user-defined aggregates, the aggregate functions, VAR, COUNT and FIRST/LAST/NTH_VALUE, and for nothing else
+    (ROW_NUMBER … NTILE, LISTAGG / JSON_AGG, LAG / LEAD) -/
+theorem clause_rights_from_grammar :
+    rightsOfGrammar ((An.grammarForms.lookup "analytic_function").getD []) = clauseRights := by
+  decide
 
 end generated
 
